@@ -179,15 +179,34 @@ class Tracebacks(Part):
         from rich.console import Console
         from rich.traceback import Traceback
 
+        d = tempfile.mkdtemp(prefix="vp_c17_")
+        try:
+            # the same path is rewritten with a differently shaped module and rendered again: a rendered traceback must show the file as it is now
+            versions = [spec, dict(spec, lead=(spec["lead"] + 2) % 5, filler=(spec["filler"] + 3) % 7, pos="first" if spec["pos"] != "first" else "last")]
+            for vi, version in enumerate(versions):
+                if not self.one_version(ctx, d, version, vi):
+                    return
+            if spec["lead"] or spec["pos"] == "last":
+                ctx.nontrivial = True
+            if spec["lead"]:
+                ctx.cls("leading-blank-lines")
+        finally:
+            shutil.rmtree(d, ignore_errors=True)
+            linecache.clearcache()
+
+    def one_version(self, ctx, d, spec, vi):
+        from rich.console import Console
+        from rich.traceback import Traceback
+
         ind = "\t" if spec["tabs"] else "    "
         lines = [""] * spec["lead"]
         msg = "漢字 boom" if spec["wide"] else "boom"
         body = []
-        for d in range(spec["depth"]):
-            name = "f%d" % d
+        for dd in range(spec["depth"]):
+            name = "f%d" % dd
             body.append("def %s(v):" % name)
             fill = ["%sv = v + %d" % (ind, k) for k in range(spec["filler"])]
-            call = "%sreturn f%d(v)" % (ind, d + 1) if d < spec["depth"] - 1 else "%sraise ValueError(%r)" % (ind, msg)
+            call = "%sreturn f%d(v)" % (ind, dd + 1) if dd < spec["depth"] - 1 else "%sraise ValueError(%r)" % (ind, msg)
             if spec["pos"] == "first":
                 body.extend([call] + fill)
             elif spec["pos"] == "last":
@@ -201,13 +220,12 @@ class Tracebacks(Part):
             body = body[:-1]
         lines += body
         text = "\n".join(lines) + ("\n" if spec["final_newline"] else "")
-        d = tempfile.mkdtemp(prefix="vp_c17_")
         path = os.path.join(d, "genmod.py")
-        try:
+        if True:
             with open(path, "w", encoding="utf-8") as f:
                 f.write(text)
             linecache.checkcache(path)
-            specm = importlib.util.spec_from_file_location("vp_c17_genmod", path)
+            specm = importlib.util.spec_from_file_location("vp_c17_genmod_%d" % vi, path)
             mod = importlib.util.module_from_spec(specm)
             specm.loader.exec_module(mod)
             try:
@@ -234,25 +252,19 @@ class Tracebacks(Part):
                 blk = [b for b in blocks if b.startswith(header)]
                 if not blk:
                     ctx.violation("traceback", "C17/traceback/no-frame", "no frame header %r in\n%s" % (header, out))
-                    return
+                    return False
                 m = re.search(r"(?m)^│ ❱ +(\d+) (.*?) *│$", blk[0])
                 want_text = src_lines[lineno - 1].expandtabs(4).rstrip()
                 if not m:
                     ctx.violation("traceback", "C17/traceback/no-marked-line", "frame %s has no line marked as failing (source line %d is %r)\n%s" % (header, lineno, want_text, out))
-                    return
+                    return False
                 shown = m.group(2)
                 mm = re.match(r"^[ %s]*" % GUIDE, shown)
                 shown = (shown[:mm.end()].replace(GUIDE, " ") + shown[mm.end():]).rstrip()
                 if int(m.group(1)) != lineno or shown != want_text:
-                    ctx.violation("traceback", "C17/traceback/wrong-line", "frame %s marks line %s %r, the failing source line is %d %r\n%s" % (header, m.group(1), shown, lineno, want_text, out))
-                    return
-            if spec["lead"] or spec["pos"] == "last":
-                ctx.nontrivial = True
-            if spec["lead"]:
-                ctx.cls("leading-blank-lines")
-        finally:
-            shutil.rmtree(d, ignore_errors=True)
-            linecache.clearcache()
+                    ctx.violation("traceback", "C17/traceback/%s" % ("stale-source" if vi else "wrong-line"), "frame %s marks line %s %r, the failing source line is %d %r\n%s" % (header, m.group(1), shown, lineno, want_text, out))
+                    return False
+        return True
 
 
 PARTS = [SyntaxLines(), Tracebacks()]
